@@ -12,6 +12,9 @@ package main
 
 import (
 	"context"
+	"go/types"
+
+	"golang.org/x/tools/go/ssa"
 	"encoding/json"
 	"flag"
 	"fmt"
@@ -311,8 +314,114 @@ func cmdReplay(args []string) int {
 	return 0
 }
 
+// runEnumerations: "enumerate" declarations are discharged syntactically over
+// the SSA of every repository function:
+//   enumerate Cxx stores pkg.Type.field in F1, F2, ...   every Store to that field is in one of the listed functions
+//   enumerate Cxx calls  pkg.Func        in F1, F2, ...   every call (static or go/defer) of that function is in one of them
+// Each site found is one obligation (kind site-enum); a site outside the list fails.
 func runEnumerations(P *Program, S *Specs, prop string) ([]*Obligation, []string) {
-	return nil, nil
+	var out []*Obligation
+	var errs []string
+	for _, en := range S.Enumerate {
+		if !hasProp(en.Props, prop) {
+			continue
+		}
+		if len(en.Args) < 3 || en.Args[1] != "in" {
+			errs = append(errs, fmt.Sprintf("%s:%d: enumerate needs '<kind> <target> in F1, F2'", en.File, en.Line))
+			continue
+		}
+		target := en.Args[0]
+		allowed := map[string]bool{}
+		for _, a := range en.Args[2:] {
+			a = strings.TrimSuffix(strings.TrimSpace(a), ",")
+			if a == "" {
+				continue
+			}
+			if !strings.Contains(a, ".") || strings.HasPrefix(a, "(") {
+				a = "ice." + a
+			}
+			allowed[a] = true
+			if _, ok := P.Funcs[a]; !ok {
+				out = append(out, &Obligation{Name: fmt.Sprintf("enumerate/%s.%s/contract-binding#%s", en.Kind, target, a), Props: en.Props, Kind: "contract-binding", Fn: a, Status: "unbound", Goal: "false", Reach: "true",
+					Src: "enumerate lists a function that does not exist: " + a})
+			}
+		}
+		var keys []string
+		for k := range P.Funcs {
+			keys = append(keys, k)
+		}
+		sortStrings(keys)
+		found := 0
+		for _, k := range keys {
+			fn := P.Funcs[k]
+			if fn.Synthetic != "" && !strings.Contains(fn.Name(), "$") {
+				continue
+			}
+			host := k
+			// closures count as part of their outermost parent
+			for p := fn; p.Parent() != nil; p = p.Parent() {
+				host = funcKey(p.Parent())
+			}
+			n := 0
+			for _, b := range fn.Blocks {
+				for _, in := range b.Instrs {
+					hit := false
+					switch en.Kind {
+					case "stores":
+						if st, ok := in.(*ssa.Store); ok {
+							if fa, ok := st.Addr.(*ssa.FieldAddr); ok {
+								T := fa.X.Type().Underlying().(*types.Pointer).Elem()
+								if typeNameOf(T)+"."+fieldName(T, fa.Field) == target {
+									hit = true
+								}
+							}
+						}
+					case "calls":
+						if ci, ok := in.(ssa.CallInstruction); ok {
+							c := ci.Common()
+							if f := c.StaticCallee(); f != nil && funcKey(f) == target {
+								hit = true
+							}
+							if c.IsInvoke() && "iface "+typeNameOf(c.Value.Type())+"."+c.Method.Name() == target {
+								hit = true
+							}
+						}
+						// taking the function as a value also counts
+						if mc, ok := in.(*ssa.MakeClosure); ok {
+							if f, ok := mc.Fn.(*ssa.Function); ok && funcKey(f) == target {
+								hit = true
+							}
+						}
+					}
+					if !hit {
+						continue
+					}
+					n++
+					found++
+					o := &Obligation{Name: fmt.Sprintf("enumerate/%s.%s/site-enum#%s.%d", en.Kind, target, host, n), Props: en.Props, Kind: "site-enum", Fn: host, Reach: "true",
+						Src: en.Src, Pos: P.Fset.Position(in.Pos()), Backend: "syntactic (SSA scan)"}
+					if allowed[host] {
+						o.Status = "unsat"
+						o.Goal = "true"
+					} else {
+						o.Status = "unbound"
+						o.Goal = "false"
+						o.Src = fmt.Sprintf("%s %s occurs in %s, which is outside the enumerated set {%s}", en.Kind, target, host, strings.Join(en.Args[2:], " "))
+					}
+					out = append(out, o)
+				}
+			}
+		}
+		if found == 0 {
+			out = append(out, &Obligation{Name: fmt.Sprintf("enumerate/%s.%s/contract-binding", en.Kind, target), Props: en.Props, Kind: "contract-binding", Status: "unbound", Goal: "false", Reach: "true",
+				Src: "enumerate target has no site at all (renamed?): " + target})
+		}
+	}
+	return out, errs
+}
+
+func typeNameOf(t types.Type) string {
+	return types.TypeString(t, func(p *types.Package) string { return p.Name() })
 }
 
 func runBounded(repo, verif, dir, prop, tier string, known []KnownFinding, out *[]map[string]any) int {
